@@ -48,7 +48,12 @@ struct formatter<char[N], char> {
     template <typename FormatContext>
     constexpr auto format(char const* val, FormatContext& fc) -> decltype(fc.out())
     {
-        return etl::copy(val, val + N, fc.out());
+        // A character array is formatted as a C string: up to the terminating null.
+        auto len = etl::size_t{0};
+        while (len < N and val[len] != '\0') {
+            ++len;
+        }
+        return etl::copy(val, val + len, fc.out());
     }
 };
 
@@ -132,7 +137,7 @@ struct formatter<unsigned short, char> {
 template <>
 struct formatter<unsigned, char> {
     template <typename FormatContext>
-    constexpr auto format(int v, FormatContext& fc) -> decltype(fc.out())
+    constexpr auto format(unsigned v, FormatContext& fc) -> decltype(fc.out())
     {
         return detail::integer_format(v, fc);
     }
